@@ -1,0 +1,10 @@
+//go:build verif
+
+package geyser
+
+// VerifJavaCompatibleUsername exposes the unexported Bedrock -> Java profile
+// name normalization to the /verif runtime monitors (check C40). It adds no
+// behaviour.
+func VerifJavaCompatibleUsername(name string) string {
+	return javaCompatibleUsername(name)
+}
